@@ -32,7 +32,7 @@ type CaseC09 struct {
 	Tail   int        `json:"tail"`    // decoded path: 0xFF bytes after the section in the decoder's input
 }
 
-const c09Kinds = 45
+const c09Kinds = 46
 
 func genC09(t *rapid.T) CaseC09 {
 	c := CaseC09{}
@@ -56,7 +56,8 @@ func genC09(t *rapid.T) CaseC09 {
 			c.BadCRC = rapid.IntRange(1, 32).Draw(t, "bad-crc-bit")
 		}
 		c.Tail = rapid.SampledFrom([]int{0, 0, 0, 1, 4, 30}).Draw(t, "tail")
-		c.Splice.Stuffing = rapid.SampledFrom([]int{0, 0, 0, 1, 3, 8}).Draw(t, "input-alignment-stuffing")
+		// no alignment_stuffing on the input side: such a section is not canonical, and whether a decoder keeps the count
+		// (and re-emits the bytes) or drops it is not stated. C08 decodes sections with stuffing.
 	}
 	if rapid.IntRange(0, 2).Draw(t, "with-muts") != 0 {
 		c.Muts = rapid.SliceOfN(rapid.Custom(func(t *rapid.T) MutC09 {
@@ -405,6 +406,21 @@ func c09Apply(st *c09State, mu MutC09) string {
 			}
 		}
 		return fmt.Sprintf("SetDescriptors(drop-last=%v)", mu.B)
+	case 45:
+		// an empty list, nil or not: every segmentation descriptor goes, the foreign ones are preserved
+		if mu.B {
+			s.SetDescriptors(nil)
+		} else {
+			s.SetDescriptors([]scte35.SegmentationDescriptor{})
+		}
+		keep := []ref.SpliceDesc{}
+		for _, md := range m.Descs {
+			if md.Foreign {
+				keep = append(keep, md)
+			}
+		}
+		m.Descs = keep
+		return fmt.Sprintf("SetDescriptors(empty, nil=%v)", mu.B)
 	}
 	if d == nil || md == nil {
 		return ""
@@ -653,8 +669,10 @@ func checkC09(c CaseC09, x *hx.Ctx) *hx.Failure {
 		st.m = apiExpressible(c.Splice)
 		st.sig = buildSpliceAPIAlloc(&st.m, c.Noise, st.window)
 		st.adjusted = (st.cmdPTSField() + st.m.Adj) & m33
-		if len(st.sig.Data()) != 0 {
-			return hx.Failf("data-before-update", "Data() of a freshly created signal is not empty before UpdateData()")
+		// what Data() shows before the first encoding is not stated (nothing, or an encoding made at creation):
+		// whatever it is, it changes only when the signal is re-encoded
+		if d := st.sig.Data(); len(d) > 0 {
+			before = clone(d)
 		}
 	case "decoded":
 		sec := c.Splice.Encode()
@@ -723,7 +741,7 @@ func checkC09(c CaseC09, x *hx.Ctx) *hx.Failure {
 		if before != nil && !bytes.Equal(st.sig.Data(), before) {
 			return hx.Failf("data-changed-by-setter", "Data() changed after %v without UpdateData()", hist)
 		}
-		if before == nil && c.Path == "api" && st.sig.Data() != nil {
+		if before == nil && c.Path == "api" && len(st.sig.Data()) > 0 {
 			return hx.Failf("data-changed-by-setter", "Data() became non-empty after %v without UpdateData()", hist)
 		}
 	}
